@@ -2,7 +2,7 @@
 //! (30 layout objects x 124 keys x 512 modifier values x 2 modes = 3.8 M points each).
 
 use crate::common::*;
-use crate::props::events::{decoder_family, decoder_family_with, is_modifier_key, mods_paths, EvAct};
+use crate::props::events::{decoder_family, decoder_family_opts, decoder_family_with, family_intermediates, is_modifier_key, mods_paths, EvAct, FamOpts};
 use crate::refs::layouts::*;
 use crate::replay::{Op, Replay};
 use crate::report::Ctx;
@@ -140,6 +140,26 @@ pub fn c03_judge(l: usize, k: KeyCode, m: u16, mode: HandleControl, out: &Result
     }
 }
 
+/// "whatever the lock flags are": a modifier value that selects the AltGr level with CapsLock on (no Shift, Ctrl not
+/// being mapped). Where the key has a distinct AltGr character with CapsLock off, CapsLock must not take it away.
+pub fn c03_caps_altgr_point(m: u16, mode: HandleControl) -> bool {
+    r_capslock(m) && !r_shift(m) && r_altgr(m) && !(mode == HandleControl::MapLettersToUnicode && r_ctrl(m))
+}
+
+/// judge such a point given the outputs of the same key with CapsLock off at the AltGr level and at the base level
+pub fn c03_caps_altgr_judge(out: &Result<DecodedKey, String>, out_nocaps: &Result<DecodedKey, String>, base_nocaps: &Result<DecodedKey, String>) -> Result<bool, String> {
+    match out_nocaps {
+        Ok(DecodedKey::Unicode(_)) if out_nocaps != base_nocaps => {
+            if out == out_nocaps {
+                Ok(true)
+            } else {
+                Err(otext(out_nocaps))
+            }
+        }
+        _ => Ok(false),
+    }
+}
+
 /// the modifier value selecting the base level in the same lock / Ctrl / hidden context
 pub fn base_of(m: u16) -> u16 {
     let mut b = m & !(M_LSHIFT | M_RSHIFT | M_RALT);
@@ -154,6 +174,26 @@ fn c03_chunk(form: usize, l: usize) -> ChunkOut {
     for k in main_keys(l) {
         for mode in MODES {
             for m in 0..512u16 {
+                if c03_caps_altgr_point(m, mode) {
+                    let nc = m & !M_CAPS;
+                    let out = call(form, l, k, &mods_from_bits(m), mode);
+                    let out_nc = call(form, l, k, &mods_from_bits(nc), mode);
+                    let base_nc = call(form, l, k, &mods_from_bits(base_of(nc)), mode);
+                    o.evals += 1;
+                    match c03_caps_altgr_judge(&out, &out_nc, &base_nc) {
+                        Ok(true) => o.nontrivial += 1,
+                        Ok(false) => o.count("unjudged_points", 1),
+                        Err(want) => o.bad(LBad {
+                            key: format!("{}/{}/altgr-capslock", LAYOUT_NAMES[l], key_name(k)),
+                            text: format!(
+                                "layout {}: key {:?} has the distinct AltGr character {} with CapsLock off; with CapsLock on (modifiers [{}], mode {}) the AltGr level must still type it but gives {}",
+                                LAYOUT_NAMES[l], k, want, mods_text(m), mode_name(mode), otext(&out)
+                            ),
+                            form, l, k, m, mode, expected: want, observed: otext(&out),
+                        }),
+                    }
+                    continue;
+                }
                 if c03_level(m, mode).is_none() {
                     continue;
                 }
@@ -182,7 +222,10 @@ fn c03_chunk(form: usize, l: usize) -> ChunkOut {
 }
 
 /// end-to-end: every character key typed by its real scancode in every reachable modifier state
-fn c03_e2e<S: ScancodeSet + Clone>(ctx: &mut Ctx, set_name: &str, mk: fn() -> S, set: u8) {
+/// `via`: 0 = bytes through add_byte; 1 = the same with the Set 2 status bytes 00 (key-detection overrun) and AA (self-test
+/// passed) arriving between the modifier history and the key; 2 = the key's bytes arrive bit-serially, each frame preceded
+/// by a line glitch and clear()
+fn c03_e2e<S: ScancodeSet + Clone>(ctx: &mut Ctx, set_name: &str, mk: fn() -> S, set: u8, via: u8) {
     // scancode sequences of keys taken from the real decoder itself (self-derived alphabet)
     let mut seq_of: BTreeMap<String, Vec<u8>> = BTreeMap::new();
     for pre in [vec![], vec![0xE0u8], vec![0xE1u8]] {
@@ -223,7 +266,7 @@ fn c03_e2e<S: ScancodeSet + Clone>(ctx: &mut Ctx, set_name: &str, mk: fn() -> S,
     let res = par_chunks(N_LAYOUTS, |l| {
         let mut n = 0u64;
         let mut nt = 0u64;
-        let mut bads: Vec<(usize, u16, HandleControl, KeyCode, Vec<u8>, String, String, &'static str)> = vec![];
+        let mut bads: Vec<(usize, u16, HandleControl, KeyCode, Vec<Op>, String, String, &'static str)> = vec![];
         for mode in MODES {
             for m in 0..512u16 {
                 let mut kb = Keyboard::new(mk(), Wrap(l as u8), mode);
@@ -256,8 +299,16 @@ fn c03_e2e<S: ScancodeSet + Clone>(ctx: &mut Ctx, set_name: &str, mk: fn() -> S,
                     let mut k2 = kb.clone();
                     let typed = guarded(|| {
                         let mut out = None;
+                        if via == 1 {
+                            for b in [0x00u8, 0xAA] {
+                                if let Ok(Some(ev)) = k2.add_byte(b) {
+                                    let _ = k2.process_keyevent(ev);
+                                }
+                            }
+                        }
                         for b in mkseq {
-                            if let Ok(Some(ev)) = k2.add_byte(*b) {
+                            let r = if via == 2 { crate::replay::type_bits(&mut k2, *b) } else { k2.add_byte(*b) };
+                            if let Ok(Some(ev)) = r {
                                 out = k2.process_keyevent(ev);
                             }
                         }
@@ -275,8 +326,12 @@ fn c03_e2e<S: ScancodeSet + Clone>(ctx: &mut Ctx, set_name: &str, mk: fn() -> S,
                         Ok(false) => {}
                         Err((want, lev)) => {
                             if bads.len() < 100 && !bads.iter().any(|b| b.3 == k && b.7 == lev) {
-                                let mut bytes = pre_bytes.clone();
-                                bytes.extend(mkseq);
+                                let mut bytes: Vec<Op> = pre_bytes.iter().map(|b| Op::Type(*b)).collect();
+                                if via == 1 {
+                                    bytes.push(Op::Type(0x00));
+                                    bytes.push(Op::Type(0xAA));
+                                }
+                                bytes.extend(mkseq.iter().map(|b| if via == 2 { Op::TypeBits(*b) } else { Op::Type(*b) }));
                                 bads.push((l, m, mode, k, bytes, want, otext(&outr), lev));
                             }
                         }
@@ -291,20 +346,21 @@ fn c03_e2e<S: ScancodeSet + Clone>(ctx: &mut Ctx, set_name: &str, mk: fn() -> S,
     for (a, b, bads) in res {
         n += a;
         nt += b;
-        for (l, m, mode, k, bytes, want, got, lev) in bads {
+        let how = ["", " after the status bytes 00 and AA", " arriving bit-serially after a line glitch and clear()"][via as usize];
+        for (l, m, mode, k, ops, want, got, lev) in bads {
             let comp = format!("kb:wrap-{}:{}:{}", LAYOUT_NAMES[l], set_name, mode_name(mode));
-            let ops: Vec<Op> = bytes.iter().map(|b| Op::Type(*b)).collect();
             let obs = crate::replay::run_part(&comp, &ops).pop();
             ctx.violation(
                 &format!("{}/{}/{}", LAYOUT_NAMES[l], key_name(k), lev),
-                &format!("[end-to-end {}] layout {}: with modifiers [{}] (mode {}) the scancode of {:?} must type {} but gives {}", set_name, LAYOUT_NAMES[l], mods_text(m), mode_name(mode), k, want, got),
+                &format!("[end-to-end {}] layout {}: with modifiers [{}] (mode {}) the scancode of {:?}{} must type {} but gives {}", set_name, LAYOUT_NAMES[l], mods_text(m), mode_name(mode), k, how, want, got),
                 Replay::one(&comp, ops, &want, obs),
             );
         }
     }
     ctx.evaluations += n;
     ctx.traces_validated += n;
-    ctx.part(&format!("e2e:{} scancodes -> Keyboard<real layout> -> character", set_name), json!({"layouts": 10, "modes": 2, "modifier_states": 512, "key_presses_checked": n, "judged": nt, "keys_with_scancode": seq_of.len()}));
+    let vname = ["add_byte", "add_byte, status bytes 00 AA before the key", "add_bit, glitch + clear() before every frame of the key"][via as usize];
+    ctx.part(&format!("e2e:{} scancodes -> Keyboard<real layout> -> character ({})", set_name, vname), json!({"layouts": 10, "modes": 2, "modifier_states": 512, "key_presses_checked": n, "judged": nt, "keys_with_scancode": seq_of.len()}));
 }
 
 pub fn c03(ctx: &mut Ctx) -> (u64, String) {
@@ -312,11 +368,22 @@ pub fn c03(ctx: &mut Ctx) -> (u64, String) {
     ctx.assume("Colemak / Programmer Dvorak AltGr layers are not embedded: a distinct AltGr character there is reported as unjudged, not as a violation");
     ctx.expect(tables_well_formed(), "reference tables have 48 columns");
     let (_, nt) = for_all_objects(ctx, "sweep:level-selecting modifier states", 3, c03_chunk);
-    c03_e2e::<ScancodeSet2>(ctx, "set2", ScancodeSet2::new, 2);
+    c03_e2e::<ScancodeSet2>(ctx, "set2", ScancodeSet2::new, 2, 0);
+    c03_e2e::<ScancodeSet2>(ctx, "set2", ScancodeSet2::new, 2, 1);
+    c03_e2e::<ScancodeSet2>(ctx, "set2", ScancodeSet2::new, 2, 2);
     {
         let all: Vec<usize> = (0..N_LAYOUTS).collect();
         let deep = if ctx.thorough() { 2 } else { 1 };
         decoder_family(ctx, "family:characters through EventDecoder after short histories", &all, &|l| main_keys(l), deep, |l, k, m, mode, out| {
+            if c03_caps_altgr_point(m, mode) {
+                let nc = m & !M_CAPS;
+                let out_nc = guarded(|| map_direct(l, k, &mods_from_bits(nc), mode));
+                let base_nc = guarded(|| map_direct(l, k, &mods_from_bits(base_of(nc)), mode));
+                return match c03_caps_altgr_judge(out, &out_nc, &base_nc) {
+                    Err(want) => Some(("altgr-capslock".to_string(), want)),
+                    _ => None,
+                };
+            }
             let base_out = guarded(|| map_direct(l, k, &mods_from_bits(base_of(m)), mode));
             match c03_judge(l, k, m, mode, out, &base_out) {
                 Err((want, lev)) => Some((lev.to_string(), want)),
@@ -325,7 +392,8 @@ pub fn c03(ctx: &mut Ctx) -> (u64, String) {
         });
     }
     if ctx.thorough() {
-        c03_e2e::<ScancodeSet1>(ctx, "set1", ScancodeSet1::new, 1);
+        c03_e2e::<ScancodeSet1>(ctx, "set1", ScancodeSet1::new, 1, 0);
+        c03_e2e::<ScancodeSet1>(ctx, "set1", ScancodeSet1::new, 1, 2);
     }
     ctx.sample_run("layout:direct:azerty", &["map:Q:16:Map", "map:Key2:144:Ignore"]);
     ctx.sample_run("layout:any:uk105", &["map:Key3:17:Map", "map:Oem8:144:Map"]);
@@ -1085,7 +1153,8 @@ pub fn c15(ctx: &mut Ctx) -> (u64, String) {
     {
         let all: Vec<usize> = (0..N_LAYOUTS).collect();
         let deep = if ctx.thorough() { 2 } else { 1 };
-        decoder_family(ctx, "family:numpad and editing keys through EventDecoder after short histories", &all, &|_l| c15_keys(), deep, |l, k, m, mode, out| {
+        let opts = FamOpts { max_inter: deep, mod_pairs: true, modifier_keys: false };
+        decoder_family_opts(ctx, "family:numpad and editing keys through EventDecoder after short histories", &all, &|_l| c15_keys(), opts, family_intermediates(), |l, k, m, mode, out| {
             let ret = guarded(|| map_direct(l, KeyCode::Return, &mods_from_bits(m), mode));
             judge_c15(l, k, m, mode, out, &ret)
         });
@@ -1141,7 +1210,12 @@ pub fn c16(ctx: &mut Ctx) -> (u64, String) {
     {
         let all: Vec<usize> = (0..N_LAYOUTS).collect();
         let deep = if ctx.thorough() { 2 } else { 1 };
-        decoder_family(ctx, "family:raw keys through EventDecoder after short histories", &all, &|_l| ALL_KEYS.to_vec(), deep, |_l, k, m, _mode, out| {
+        let opts = FamOpts { max_inter: deep, mod_pairs: false, modifier_keys: true };
+        decoder_family_opts(ctx, "family:raw keys through EventDecoder after short histories", &all, &|_l| ALL_KEYS.to_vec(), opts, family_intermediates(), |_l, k, m, _mode, out| {
+            if k == KeyCode::NumpadLock && m & M_RCTRL2 != 0 {
+                // the second half of the Pause sequence: the statement of C04/C14 names this press PauseBreak
+                return if *out != Ok(DecodedKey::RawKey(KeyCode::PauseBreak)) { Some(("pause".into(), "RawKey(PauseBreak)".into())) } else { None };
+            }
             if RAW52.contains(&k) {
                 return if *out != Ok(DecodedKey::RawKey(k)) { Some(("must-be-raw".into(), format!("RawKey({:?})", k))) } else { None };
             }
@@ -1245,7 +1319,7 @@ pub fn c17(ctx: &mut Ctx) -> (u64, String) {
                                 for (k, s) in &paths[*m as usize] {
                                     let _ = d.process_keyevent(KeyEvent::new(*k, *s));
                                 }
-                                d.change_layout($mk);
+                                let _ = d.change_layout($mk);
                             });
                             if prep.is_err() {
                                 continue;
@@ -1302,7 +1376,7 @@ pub fn c17(ctx: &mut Ctx) -> (u64, String) {
                                 let got = guarded(|| {
                                     let _ = d.process_keyevent(KeyEvent::new(*x, KeyState::Down));
                                     let _ = d.process_keyevent(KeyEvent::new(*y, KeyState::Down));
-                                    d.change_layout($mk);
+                                    let _ = d.change_layout($mk);
                                     d.process_keyevent(KeyEvent::new(*x, KeyState::Down))
                                 });
                                 let want = guarded(|| Some(map_direct(to, *x, &mods_from_bits(M_INIT), HandleControl::MapLettersToUnicode)));
